@@ -6,7 +6,7 @@
    program), [p] = any state left by any earlier requests, [q] = clock, hash, backend behaviour. *)
 From Coq Require Import List ZArith NArith Bool Arith.
 From Falco Require Import Base.Res Base.SMBase Gen.SMConst Gen.ObsEdges Gen.SMKnown Model.SM Model.SMDoc
-  Proofs.SMBasics Proofs.SMPath Proofs.SMCache Proofs.SMReport Proofs.SMHistory Proofs.SMEdges Proofs.SMExamples.
+  Proofs.SMBasics Proofs.SMPath Proofs.SMCache Proofs.SMReport Proofs.SMHistory Proofs.SMEdges Proofs.SMSwitch Proofs.SMExamples Gen.SMSwitch.
 Import ListNotations.
 
 (* the flow of every request is a path of the documented machine and starts at vcl_recv with
@@ -113,10 +113,10 @@ Theorem C06_persist : forall h1 orc q h2 p rs p',
     run_history h2 p2 = OK (rs2, p') /\ rs = rs1 ++ r :: rs2.
 Proof. exact persist. Qed.
 
-(* O tie - finite, exhaustive: the 340 (position, action, restarts-at-limit) cells of all_cells, each
+(* O tie - finite, exhaustive: the 360 (position, action, restarts-at-limit) cells of all_cells, each
    observed on the real interpreter (Gen/ObsEdges.v; AAbsent = the subroutine is not defined); equal to the documented machine except the
    recorded finding(s) of Gen/SMKnown.v, which are real; the model takes the observed edge on every cell *)
-Theorem C06_obs_cells_complete : map fst obs_edges = all_cells /\ length all_cells = 340.
+Theorem C06_obs_cells_complete : map fst obs_edges = all_cells /\ length all_cells = 360.
 Proof. exact (conj obs_cells_complete all_cells_count). Qed.
 
 Theorem C06_obs_edges_eq_doc : forall c o,
@@ -141,6 +141,33 @@ Theorem C06_translated_tables :
      Bool.eqb (mem_rstate r (lint_expects s)) (doc_allows s (ARet r) && negb (linter_omits s r))) all_rstates) all_scopes = true.
 Proof. exact (conj (proj1 restart_guards) (conj (proj2 restart_guards) (conj stmt_scopes_eq_doc linter_expects_eq_doc))). Qed.
 
+(* T tie on the transition relation itself: the `switch state` clauses, NONE defaults and hash/log guards of
+   every Process* function, regenerated from interpreter/interpreter.go (Gen/SMSwitch.v), agree with one step of
+   the model for every scope and every state a subroutine can return (9 scopes x 13 states, by computation) *)
+Theorem C06_switch_eq_model : forall sc s,
+  In sc switch_scopes -> In s all_states -> gen_callees sc s = model_callees sc s.
+Proof. exact switch_eq_model. Qed.
+
+Theorem C06_guards_eq_model :
+  forallb (fun sc => forallb (fun s =>
+     Bool.eqb (match assoc_scope sc impl_accept with Some l => mem_string (state_name s) l | None => false end)
+              (model_accepts sc s)) all_states) [Hash; Log] = true.
+Proof. exact guards_eq_model_b. Qed.
+
+(* recorded finding: no hit-for-pass objects (the exclusion in the documented behaviour is needed) *)
+Theorem C06_hit_for_pass_refuted :
+  exists orc1 orc2 q rs p,
+    orc1 Fetch 0 = ARet SPass /\
+    run_history [(orc1, q); (orc2, q)] init = OK (rs, p) /\
+    match rs with
+    | [_; r2] => existsb (scope_eqb Miss) (r_flows r2) = true /\ existsb (scope_eqb Pass) (r_flows r2) = false
+    | _ => False
+    end.
+Proof. exact hit_for_pass_refuted. Qed.
+
+Print Assumptions C06_hit_for_pass_refuted.
+Print Assumptions C06_switch_eq_model.
+Print Assumptions C06_guards_eq_model.
 Print Assumptions C06_sm_path.
 Print Assumptions C06_restart_bound.
 Print Assumptions C06_max_restarts_is_3.
